@@ -100,12 +100,93 @@ def ident_universe():
         if x not in seen: seen.add(x); out.append(x)
     return out
 
+
+DERIVES_SER = "#[derive(Debug, Clone, PartialEq, Encode, Decode)]"
+DERIVES_ALL = "#[derive(Debug, Clone, PartialEq, Encode, Decode, StableHash, qbice::Identifiable)]"
+G = ["A","B","C"]
+
+def shapes():
+    """derived shapes: named / tuple structs with 1-3 fields and enums whose variants carry 1-3 fields,
+    with #[serialize(skip)] on every subset of the fields"""
+    code=[]; names_ser=[]; names_hash=[]
+    for kind in ("N","T"):
+        for n in (1,2,3):
+            gs=G[:n]
+            for mask in range(1<<n):
+                name=f"S{kind}{n}m{mask}"
+                der = DERIVES_ALL if mask==0 else DERIVES_SER
+                fields=[]
+                for i,g in enumerate(gs):
+                    attr="#[serialize(skip)] " if mask>>i&1 else ""
+                    fields.append(f"{attr}pub f{i}: {g}" if kind=="N" else f"{attr}pub {g}")
+                body = "{ "+", ".join(fields)+" }" if kind=="N" else "("+", ".join(fields)+");"
+                code.append(f"{der}\npub struct {name}<{', '.join(g+': Default' for g in gs)}> {body}\n")
+                acc = (lambda i: f"f{i}") if kind=="N" else (lambda i: f"{i}")
+                bounds=", ".join(f"{g}: Uni + Default" for g in gs)
+                loops="".join(f"for x{i} in take::<{g}>(3) {{ " for i,g in enumerate(gs))
+                ctor = (name+" { "+", ".join(f"f{i}: x{i}.clone()" for i in range(n))+" }") if kind=="N" else (name+"("+", ".join(f"x{i}.clone()" for i in range(n))+")")
+                eq=" && ".join([f"self.{acc(i)}.eqv(&o.{acc(i)})" for i in range(n) if not mask>>i&1] or ["true"])
+                ok=" && ".join([ (f"self.{acc(i)}.eqv(&<{gs[i]}>::default())" if mask>>i&1 else f"self.{acc(i)}.decoded_ok()") for i in range(n)])
+                code.append(f"impl<{bounds}> Uni for {name}<{', '.join(gs)}> {{\n"
+                            f"    fn vals() -> Vec<Self> {{ let mut v = Vec::new(); {loops}v.push({ctor}); {'}'*n} v }}\n"
+                            f"    fn eqv(&self, o: &Self) -> bool {{ {eq} }}\n"
+                            f"    fn decoded_ok(&self) -> bool {{ {ok} }}\n}}\n")
+                for inst in (["u16","String","Vec<u8>"],["String","u8","Option<u8>"],["Vec<u8>","Vec<u8>","u16"]):
+                    t=f"{name}<{', '.join(inst[:n])}>"
+                    names_ser.append(t)
+                    if mask==0: names_hash.append(t)
+    # enums: one variant per (arity, mask), tuple-like and struct-like, plus unit variants in between
+    for kind in ("N","T"):
+        for skipping in (False, True):
+            name=f"E{kind}{'s' if skipping else ''}"
+            der = DERIVES_SER if skipping else DERIVES_ALL
+            variants=[]; arms_vals=[]; arms_eq=[]; arms_ok=[]
+            vi=0
+            for n in (1,2,3):
+                for mask in (range(1<<n) if skipping else [0]):
+                    v=f"V{n}m{mask}"
+                    fields=[]
+                    for i in range(n):
+                        attr="#[serialize(skip)] " if mask>>i&1 else ""
+                        fields.append(f"{attr}f{i}: {G[i]}" if kind=="N" else f"{attr}{G[i]}")
+                    variants.append(f"{v} {{ {', '.join(fields)} }}" if kind=="N" else f"{v}({', '.join(fields)})")
+                    pat_a = (f"{name}::{v} {{ "+", ".join(f"f{i}: a{i}" for i in range(n))+" }") if kind=="N" else (f"{name}::{v}("+", ".join(f"a{i}" for i in range(n))+")")
+                    pat_b = pat_a.replace("a0","b0").replace("a1","b1").replace("a2","b2")
+                    ctor = (f"{name}::{v} {{ "+", ".join(f"f{i}: x{i}.clone()" for i in range(n))+" }") if kind=="N" else (f"{name}::{v}("+", ".join(f"x{i}.clone()" for i in range(n))+")")
+                    loops="".join(f"for x{i} in take::<{G[i]}>(2) {{ " for i in range(n))
+                    arms_vals.append(f"{loops}v.push({ctor}); {'}'*n}")
+                    eq=" && ".join([f"a{i}.eqv(b{i})" for i in range(n) if not mask>>i&1] or ["true"])
+                    unused="".join(f" let _ = (a{i}, b{i});" for i in range(n) if mask>>i&1)
+                    arms_eq.append(f"({pat_a}, {pat_b}) => {{{unused} {eq} }}")
+                    ok=" && ".join([(f"a{i}.eqv(&<{G[i]}>::default())" if mask>>i&1 else f"a{i}.decoded_ok()") for i in range(n)])
+                    arms_ok.append(f"{pat_a} => {ok},")
+                if n==2: variants.append("U0")
+            variants.append("U1")
+            code.append(f"{der}\npub enum {name}<A: Default, B: Default, C: Default> {{ {', '.join(variants)} }}\n")
+            code.append(f"impl<A: Uni + Default, B: Uni + Default, C: Uni + Default> Uni for {name}<A, B, C> {{\n"
+                        f"    fn vals() -> Vec<Self> {{ let mut v = vec![{name}::U0, {name}::U1]; {' '.join(arms_vals)} v }}\n"
+                        f"    fn eqv(&self, o: &Self) -> bool {{ match (self, o) {{ ({name}::U0, {name}::U0) | ({name}::U1, {name}::U1) => true, {' '.join(a+',' for a in arms_eq)} _ => false }} }}\n"
+                        f"    fn decoded_ok(&self) -> bool {{ match self {{ {name}::U0 | {name}::U1 => true, {' '.join(arms_ok)} }} }}\n}}\n")
+            for inst in (["u16","String","Vec<u8>"],["String","u8","Option<u8>"]):
+                t=f"{name}<{', '.join(inst)}>"
+                names_ser.append(t)
+                if not skipping: names_hash.append(t)
+    # nested uses (self-delimiting inside containers)
+    names_ser += ["Vec<ST2m1<u8,String>>","Option<SN3m5<u16,String,Vec<u8>>>","(ST3m2<u8,String,u16>,u8)","Vec<ETs<u8,String,u16>>","HashMap<u8,ENs<u8,String,u16>>",
+                  "VecDeque<VecDeque<u8>>","Vec<VecDeque<String>>","Option<VecDeque<u16>>","(VecDeque<u8>,VecDeque<u8>)","HashMap<u8,VecDeque<u8>>","BTreeMap<u8,HashSet<u8>>","Vec<HashSet<String>>"]
+    names_hash += ["VecDeque<VecDeque<u8>>","Vec<VecDeque<String>>","Option<VecDeque<u16>>","(VecDeque<u8>,VecDeque<u8>)","HashMap<u8,VecDeque<u8>>","BTreeMap<u8,HashSet<u8>>","Vec<HashSet<String>>",
+                   "Vec<ST2m0<u8,String>>","Option<EN<u8,String,u16>>"]
+    return "\n".join(code), names_ser, names_hash
+
 def main():
     ser=universe(True); hsh=universe(False)
+    shape_src, s_ser, s_hash = shapes()
+    ser += s_ser; hsh += s_hash
     ids=ident_universe()
     with open(os.path.join(HERE,"harness/vt/src/vtypes_gen.rs"),"w") as f:
         f.write("//! GENERATED by tools/gen_vtypes.py — do not edit.\n#![allow(unused_imports, clippy::all)]\n")
         f.write("use std::{collections::*, rc::Rc, sync::Arc};\nuse crate::vshape::*;\nuse qbice::Identifiable;\n\n")
+        f.write("use qbice::{Decode, Encode, StableHash};\n"+shape_src+"\n")
         f.write("pub fn run_ser(ctx: &mut Ctx) {\n")
         import json as _j
         for t in ser: f.write(f"    check_ser::<{t}>(ctx, {_j.dumps(t)});\n")
